@@ -4,6 +4,7 @@ import sys, os
 sys.path.insert(0, os.path.dirname(os.path.abspath(__file__)))
 from proto import *
 
+P2 = 0xFFFFFFFEFFFFFFFFFFFFFFFFFFFFFFFFFFFFFFFF00000000FFFFFFFFFFFFFFFF
 CRATE = "gm-sm2"
 
 
@@ -232,9 +233,12 @@ def ob_from_byte_lengths(L):
                 flag = bt[0]
                 if L == 33:
                     discharge(stats, hy, z3.Or(flag == 2, flag == 3), "33-byte encodings are accepted only with tag 02/03")
+                    discharge(stats, hy, z3.ULT(z3.Concat(*bt[1:33]), z3.BitVecVal(P2, 256)), "compressed encoding accepted only with a canonical x (< p)")
                     discharge(stats, hy, u256_term(dom, P.f[0]) == TO(z3.Concat(*bt[1:33])), "x decoded from bytes 1..33")
                 else:
-                    discharge(stats, hy, z3.And(flag != 2, flag != 3), "65-byte encodings are not treated as compressed")
+                    discharge(stats, hy, flag == 4, "65-byte encodings are accepted only with the uncompressed tag 04 (any other first byte is a modified encoding)")
+                    discharge(stats, hy, z3.And(z3.ULT(z3.Concat(*bt[1:33]), z3.BitVecVal(P2, 256)), z3.ULT(z3.Concat(*bt[33:65]), z3.BitVecVal(P2, 256))),
+                              "uncompressed encoding accepted only with canonical coordinates (< p)")
                     discharge(stats, hy, z3.And(u256_term(dom, P.f[0]) == TO(z3.Concat(*bt[1:33])), u256_term(dom, P.f[1]) == TO(z3.Concat(*bt[33:65]))), "x, y decoded from bytes 1..33, 33..65")
         return {"paths": len(paths)}
     return run_obligation("from_byte_len_%02d" % L, ["gm_sm2::p256_ecc::Point::from_byte"], "encoding of %d bytes, contents symbolic" % L, body,
